@@ -53,3 +53,26 @@ DUMP = {
  'set_strs':        lambda n: {'e%d' % i for i in range(n)},
  'lookalikes':      lambda n: ['yes', '1', '~', '1:30', '<<'] * n,
 }
+
+# families that go through *customised* loader / dumper classes (tools/c11custom.py): (kind, class name, generator)
+#   kind 'load' : yaml.load_all(text, Loader=cls)      'dump' : yaml.dump(value, Dumper=cls)
+#   kind 'calls': n separate yaml.load calls of one tiny document with the same class (work per call must not grow with the number of earlier calls)
+def _objs(n):
+    from tools import c11custom as CC
+    return [CC.Sub(i) for i in range(n)]
+def _points(n):
+    from tools import c11custom as CC
+    return [CC.Point(i, i) for i in range(n)]
+CUSTOM = {
+ 'env_load_words':     ('load', 'EnvLoader', lambda n: ''.join('- foo%d\n' % i for i in range(n))),
+ 'env_load_flow':      ('load', 'EnvLoader', lambda n: '[' + ', '.join('nab' for _ in range(n)) + ']'),
+ 'env_load_numlike':   ('load', 'EnvLoader', lambda n: ''.join('k%d: 1x%d\n' % (i, i) for i in range(n))),
+ 'env_dump_words':     ('dump', 'EnvDumper', lambda n: ['foo%d' % i for i in range(n)]),
+ 'env_dump_dict':      ('dump', 'EnvDumper', lambda n: {'year%d' % i: 'tee' for i in range(n)}),
+ 'multi_dump_objects': ('dump', 'MultiDumper', _objs),
+ 'object_dump_points': ('dump', 'FD', _points),
+ 'multi_load_tags':    ('load', 'MultiLoader', lambda n: ''.join('- !m:a%d x\n' % i for i in range(n))),
+ 'path_load_entries':  ('load', 'PathLoader', lambda n: ''.join('k%d: v\n' % i for i in range(n))),
+ 'env_load_calls':     ('calls', 'EnvLoader', lambda n: n),
+ 'multi_dump_calls':   ('dcalls', 'MultiDumper', lambda n: n),
+}
